@@ -457,6 +457,29 @@ _EXTRA8 = {
 for _k, _v in _EXTRA8.items():
     CHECKS[_k]["rule"] += _v
 
+_EXTRA8B = {
+    "C10": " Eighth round: every traced message is signed eight more times with the identical generator stream while the other worker "
+           "threads sign with other keys: the signature is a function of (key, message, stream) and must come out byte-identical.",
+    "C12": " Eighth round: the cold-start leg runs 20000 fresh processes per quick run (150000 thorough): state drawn once per process "
+           "(a blinding mask, a lazily chosen constant) is sampled that many times.",
+    "C13": " Eighth round: operations during thread exit (a probe thread-local registered before the thread's first transform runs split, "
+           "inverse(forward), merge and product with their oracles from its destructor, after the crate's own per-thread state is gone).",
+    "C14": " Eighth round: the reference scan (40 million candidates per quick run) also keeps inputs in which a threshold chunk (61445 = 5q "
+           "or 61444) lies among the last chunks consumed for 512 coefficients, beyond position n + n/16, latest first.",
+    "C15": " Eighth round: sign-then-generate histories with LEAF-STEERED signing keys: candidates (f,g) of a chosen squared norm (the value "
+           "that puts the first tree leaf sigma/||(f,g)|| on the width 1.43300980528773 key generation samples with, and its neighbours) "
+           "are hill-climbed to a flat spectrum so that the generator accepts them, made into keys by the scripted generator of C04, and "
+           "used to sign right before every key generation of the history.",
+    "C16": " Eighth round: eight signatures per Falcon-1024 key under a wide-candidate generator stream (genuine compression failures "
+           "before the successful attempt) must be accepted by the reference.",
+    "C17": " Eighth round: ACCUMULATING transform inputs for the 30-bit field: dense random data adjusted in k+1 places so that slot 0 of a "
+           "radix-2 butterfly network accumulates u + v_1 + ... + v_k with every term congruent to Q - e for tiny e's of a chosen total "
+           "(k = 1..6; totals around 49156 = 4Q - 2^32); the network's shape and twiddles are read off the crate's own transform of x and "
+           "the family is used only if a harness-side simulation of all layers reproduces the crate's transform.",
+}
+for _k, _v in _EXTRA8B.items():
+    CHECKS[_k]["rule"] += _v
+
 NOT_APPLICABLE = {}
 
 ENGINES = [
